@@ -52,9 +52,9 @@ IsWs(c) == c \in {SP, TAB, LF, CR}
 (* ---- encodings ----------------------------------------------------------------------------------- *)
 Cp1252High == {8364, 8218, 402, 8222, 8230, 8224, 8225, 710, 8240, 352, 8249, 338, 381, 8216, 8217,
                8220, 8221, 8226, 8211, 8212, 732, 8482, 353, 8250, 339, 382, 376}
-Encodings == {"UTF-8", "UTF-16", "UTF-16BE", "ISO-8859-1", "US-ASCII", "windows-1252", "GB18030"}    \* UTF-16BE: the byte order that is not the machine's, no byte order mark
+Encodings == {"UTF-8", "UTF-16", "UTF-16BE", "ISO-8859-1", "US-ASCII", "windows-1252", "GB18030", "X-UNKNOWN-ENC"}    \* UTF-16BE: the byte order that is not the machine's, no byte order mark
 Encodable(c, enc) ==
-  CASE enc \in {"UTF-8", "UTF-16", "UTF-16BE", "GB18030"} -> ~IsSurrogate(c)
+  CASE enc \in {"UTF-8", "UTF-16", "UTF-16BE", "GB18030", "X-UNKNOWN-ENC"} -> ~IsSurrogate(c)     \* an unknown name: UTF-8 is written (16.1)
     [] enc = "ISO-8859-1"   -> c <= 255
     [] enc = "US-ASCII"     -> c <= 127
     [] enc = "windows-1252" -> c <= 127 \/ (c >= 160 /\ c <= 255) \/ c \in Cp1252High
